@@ -111,8 +111,4 @@ def check(tier):
 
 
 def replay(payload):
-    run = Run("C20", "quick")
-    print("scenario:", json.dumps(payload.get("case")))
-    print("event:", json.dumps({k: v for k, v in (payload.get("event") or {}).items() if k != "asn"}))
-    print("re-run: bin/check C20 --tier quick (scenarios are deterministic functions of the plan and VERIF_SEED)")
-    return 1
+    return core.replay_by_rerun("C20", check, payload, keys=("api", "backend", "srcform", "mode", "dest", "input", "asn"))
